@@ -2,7 +2,7 @@
 From Cfb.model Require Import Base Names DirEnt State Alloc Dir Mini Store Handle Open Cfb.
 From Cfb.gen Require Import Consts.
 From Cfb.spec Require Import Tree.
-From Cfb.proofs Require Import ReuseProofs ReadonlyTotal PersistProofs HistoryRefine NetZero.
+From Cfb.proofs Require Import ReuseProofs ReadonlyTotal PersistProofs HistoryRefine NetZero Progress.
 Set Printing Width 110.
 
 (* with a free sector available, allocation takes it and the file does not grow *)
@@ -82,6 +82,18 @@ Theorem C15_the_same_after_any_namespace_history : ltac:(let t := type of netzer
 Proof. exact netzero_after_history. Qed.
 Check C15_the_same_after_any_namespace_history.
 Print Assumptions C15_the_same_after_any_namespace_history.
+
+(* the only acceptance hypothesis is that the SPECIFICATION accepts the cycle once: then the model accepts it three times, the tree is the same after each and the size is constant from the first repetition on *)
+Theorem C15_net_zero_cycles_are_stable_given_only_the_specification : ltac:(let t := type of netzero_cycle_stable_total in exact t).
+Proof. exact netzero_cycle_stable_total. Qed.
+Check C15_net_zero_cycles_are_stable_given_only_the_specification.
+Print Assumptions C15_net_zero_cycles_are_stable_given_only_the_specification.
+
+(* after any covered history on a new file *)
+Theorem C15_the_same_after_any_history_unconditionally : ltac:(let t := type of netzero_after_history_total in exact t).
+Proof. exact netzero_after_history_total. Qed.
+Check C15_the_same_after_any_history_unconditionally.
+Print Assumptions C15_the_same_after_any_history_unconditionally.
 
 (* non-vacuity: V3, a 3-entry cycle removed out of order: file length 3, then 4, 4, 4 sectors (the first repetition adds a directory sector) *)
 Theorem C15_cycle_example : ltac:(let t := type of Example.sizes in exact t).
